@@ -175,6 +175,33 @@ def _disp2eig(ctx):
             ctx.violation("disp2eig:not-orthonormal", f"Gram matrix deviates by {numpy.abs(gram - numpy.eye(rows)).max():.2e}", case_id, {"nat": nat})
         if not numpy.array_equal(disp, disp0):
             ctx.violation("disp2eig:input-mutated", "the displacement array was modified in place", case_id)
+        # history: the caller edits the very same mass container in place (isotope substitution, unit change) and converts again
+        if i % 2 == 0 or i % 3 == 0:
+            how = ["one-isotope", "rescaled", "permuted"][i % 3]
+            mass2 = mass.copy()
+            if how == "one-isotope":
+                mass2[int(rng.integers(0, nat))] *= 18.0 / 16.0
+            elif how == "rescaled":
+                mass2 *= float(rng.choice([1822.9, 1.66e-27, 0.5]))
+            else:
+                mass2 = mass2[::-1].copy() * (1 + 0.03 * numpy.arange(nat))
+            for j in range(nat):
+                m_arg[j] = float(mass2[j])
+            disp2 = cfac[:, None] * eig / numpy.sqrt(numpy.repeat(mass2, 3))[None, :]
+            try:
+                got2 = numpy.asarray(evec_disp2eig(disp2, m_arg))
+            except Exception as exc:
+                if classify_exception(exc) == "code":
+                    ctx.violation(f"disp2eig-raises:{type(exc).__name__}:second-call", f"nat={nat} rows={rows}\n{exc_text(exc)}", case_id, {"nat": nat})
+                else:
+                    ctx.harness_error("C20.disp2eig2", exc)
+                continue
+            ctx.evaluation(f"disp2eig-same-mass-container-edited-in-place-{how}", (nat, rows, cplx, i), nontrivial=True)
+            err2 = numpy.abs(got2 - ph[:, None] * eig).max() if got2.shape == disp0.shape else numpy.inf
+            ctx.maxi("disp2eig_value_err/tol", err2 / 1e-10)
+            if err2 > 1e-10:
+                ctx.violation("disp2eig:not-the-eigenvector:after-masses-edited-in-place", f"second conversion with the same mass container edited in place "
+                              f"({how}) differs from the mass-weighted eigenvector by {err2:.2e} (nat={nat})", case_id, {"nat": nat, "mass_first": mass, "mass_second": mass2})
     for i in range(ctx.pick(30, 300)):
         if not ctx.mine(i, f"d2ebad{i}"):
             continue
